@@ -11,6 +11,9 @@ event = ['sub', pid, 'plain', x] | ['sub', pid, 'list', [x..]] | ['sub', pid, 'i
       | ['fputl', pid, kind...]                like 'fput', but the foreign thread runs an event loop of its own and
                                                submits from inside a coroutine on it; unmatched (no pending first half)
                                                it is a whole ungated submission through the public API (model: FClear ; FPut)
+      | ['burst', pid0, n, x0]                 n plain submissions buffer(x0), .., buffer(x0+n-1) (producer ids pid0..) made
+                                               back to back in ONE step, no loop iteration in between
+                                               (model: Submit pid0 (Plain x0) ; .. ; Submit (pid0+n-1) (Plain (x0+n-1)))
       | ['subwait', pid, w, cancel, kind...]   submit and `await wait(cancel=..)` in ONE step of one task, with no
                                                loop iteration in between (model: Submit pid kind ; Wait w cancel)
       | ['fputwait', pid, w, cancel, kind...]  second half of a foreign submission immediately followed, in the same
@@ -19,6 +22,12 @@ event = ['sub', pid, 'plain', x] | ['sub', pid, 'list', [x..]] | ['sub', pid, 'i
 obs   = one list per event, entries
         ['start', callno, sorted set, tick] | ['end', callno, ok, sorted set re-read at the end]
       | ['wret', w, tick, n_successful_calls_so_far] | ['werr', w] | ['dead'] | ['hang'] | ['late', ...]
+
+case['vals'] (optional) = {argument id: tag}: the argument id stands for an unusual Python VALUE instead of the small
+integer itself — tags 'none' (None), 'zero' (0), 'false' (False), 'fzero' (0.0), 'str' (''), 'tuple' (()), 'bytes' (b''),
+'fset' (frozenset()).  The id is replaced by the value wherever the script hands it to the library (plain call, list,
+iterator, awaitable result, async yield) and the value is mapped back to the id in every observed set; the model only
+ever sees ids.  At most one of 'zero' / 'false' / 'fzero' per case (they are equal as set elements).
 
 Everything the buffered function / the producers do is scripted: the function
 logs `start` with a COPY of the set and parks on a harness future resolved by
@@ -49,6 +58,12 @@ import logging
 import threading
 
 from .vloop import Sim, TICK
+
+
+VALUE_TAGS = {'none': None, 'zero': 0, 'false': False, 'fzero': 0.0, 'str': '', 'tuple': (), 'bytes': b'',
+              'fset': frozenset()}
+ZERO_FAMILY = ('zero', 'false', 'fzero')
+SENTINEL = 4999
 
 
 class ProdErr(Exception):
@@ -114,6 +129,8 @@ def match_foreign(evs):
     for i, e in enumerate(evs):
         if e[0] in ('sub', 'subwait'):
             used_pids.add(e[1])
+        elif e[0] == 'burst':
+            used_pids.update(range(e[1], e[1] + e[2]))
         elif e[0] in ('fclear', 'okfclear'):
             open_firsts.append(i)
         elif e[0] in ('fput', 'fputl', 'fputwait'):
@@ -278,6 +295,30 @@ class Run:
         self.fmatch = {}        # script index of a 'fclear'/'okfclear' -> (script index, event) of the matching 'fput'
         self.fthread = {}       # script index of a 'fput' -> the thread parked before its second operation
         self.idx = -1
+        self.vals = {int(k): v for k, v in (case.get('vals') or {}).items()}
+
+    # -- argument ids <-> Python values ------------------------------------------
+    def enc(self, x):
+        tag = self.vals.get(x)
+        return x if tag is None else VALUE_TAGS[tag]
+
+    def dec(self, obj):
+        for i, tag in self.vals.items():
+            v = VALUE_TAGS[tag]
+            if tag in ZERO_FAMILY:
+                if type(obj) in (int, bool, float) and obj == 0:
+                    return i
+            elif type(obj) is type(v) and obj == v:
+                return i
+        if type(obj) is int and 0 <= obj < SENTINEL:
+            return obj
+        return SENTINEL
+
+    def frozen(self, inputs):
+        try:
+            return sorted(self.dec(x) for x in inputs)
+        except BaseException:
+            return [SENTINEL]
 
     PATIENCE = 100          # polls of 5 ms: a helper thread that is still there after 0.5 s is parked for good
 
@@ -297,11 +338,7 @@ class Run:
         self.callno += 1
         fut = self.sim.loop.create_future()
         self.running.append((k, inputs, fut))
-        try:
-            frozen = sorted(inputs)
-        except BaseException:
-            frozen = [9999]
-        self.sim.obs('start', k, frozen, self.sim.ticks())
+        self.sim.obs('start', k, self.frozen(inputs), self.sim.ticks())
         ok = await fut
         if not ok:
             raise FnErr(f'call {k} failed')
@@ -331,12 +368,13 @@ class Run:
         pid, kind = ev[1], ev[2]
         b = self.buffer
         if kind == 'plain':
-            return (lambda: b(ev[3])), (lambda: _obj_to_aiter()(ev[3]))
+            x = self.enc(ev[3])
+            return (lambda: b(x)), (lambda: _obj_to_aiter()(x))
         if kind == 'list':
-            xs = list(ev[3])
+            xs = [self.enc(x) for x in ev[3]]
             return (lambda: b.map(xs)), (lambda: _to_async_iter()(xs))
         if kind == 'iter':
-            it = _FailingIter(ev[3], ev[4])
+            it = _FailingIter([self.enc(x) for x in ev[3]], ev[4])
             return (lambda: b.map(it)), (lambda: _to_async_iter()(it))
         if kind == 'aw':
             p = _Prod(pid, True)
@@ -382,6 +420,12 @@ class Run:
                 return
             self.seen.add(ev[1])
             self.make_producer(ev)[0]()
+        elif k == 'burst':
+            for i in range(ev[2]):
+                if ev[1] + i in self.seen:
+                    continue
+                self.seen.add(ev[1] + i)
+                b(self.enc(ev[3] + i))
         elif k in ('py', 'pf', 'pe'):
             p = self.prods.get(ev[1])
             if p is None or p.closed:
@@ -391,7 +435,7 @@ class Run:
                     return
                 p.closed = True
                 if k == 'py':
-                    p.fut.set_result(ev[2])
+                    p.fut.set_result(self.enc(ev[2]))
                 elif p.pid % 2:
                     p.fut.cancel()         # a cancelled awaitable: CancelledError out of the producer
                 else:
@@ -399,7 +443,7 @@ class Run:
                     p.fut.exception()      # mark retrieved: no "never retrieved" logging noise
                 return
             if k == 'py':
-                p.acts.append(('y', ev[2]))
+                p.acts.append(('y', self.enc(ev[2])))
             else:
                 p.closed = True
                 p.acts.append(('f',) if k == 'pf' else ('e',))
@@ -423,11 +467,7 @@ class Run:
                 return
             kno, live, fut = self.running.pop(0)
             ok = k != 'fail'
-            try:
-                again = sorted(live)
-            except BaseException:
-                again = [9999]
-            sim.obs('end', kno, ok, again)
+            sim.obs('end', kno, ok, self.frozen(live))
             if ok:
                 self.nok += 1
             fut.set_result(ok)
@@ -784,6 +824,13 @@ def expand(evs, obs=None):
                 out_o.append([])
             out_e.append(['fput'] + list(e[1:]))
             out_o.append(o)
+        elif e[0] == 'burst':
+            if e[2] <= 0:
+                out_e.append(['adv', 0])        # an empty burst: a step in which nothing happens
+                out_o.append(o)
+            for j in range(e[2]):
+                out_e.append(['sub', e[1] + j, 'plain', e[3] + j])
+                out_o.append(o if j == e[2] - 1 else [])
         elif e[0] in ('subwait', 'fputwait'):
             out_e.append(['sub' if e[0] == 'subwait' else 'fput', e[1]] + list(e[4:]))
             out_o.append([])
@@ -811,8 +858,13 @@ def explain_exprs(case, obs):
     return [f"trace {C.coq_N(case['T'])} {evs}"]
 
 
+BIG_BURST = 512     # a case with a burst this large costs about a minute in Coq: reported as it is, not shrunk
+
+
 def shrink_candidates(case):
     evs = case['evs']
+    if any(e[0] == 'burst' and e[2] >= BIG_BURST for e in evs):
+        return []
     out = []
     for i in range(len(evs)):
         out.append(dict(case, evs=evs[:i] + evs[i + 1:]))
@@ -821,6 +873,11 @@ def shrink_candidates(case):
             for v in {0, e[1] // 2, e[1] - 1}:
                 if v != e[1]:
                     out.append(dict(case, evs=evs[:i] + [['adv', v]] + evs[i + 1:]))
+        if e[0] == 'burst' and e[2] > 1:
+            n = e[2]
+            for v in sorted({n // 2, n - n // 4, n - n // 16, n - n // 64, n - 1}):
+                if 0 < v < n:
+                    out.append(dict(case, evs=evs[:i] + [['burst', e[1], v, e[3]]] + evs[i + 1:]))
         if e[0] in ('sub', 'fput') and e[2] in ('list', 'iter') and len(e[3]) > 1:
             e2 = list(e)
             e2[3] = e[3][:-1]
@@ -840,6 +897,88 @@ def shrink_candidates(case):
 
 def signature(case, obs):
     return None
+
+
+def arg_ids(evs):
+    """argument ids a script hands to the library, in order of first appearance"""
+    out = []
+    for e in evs:
+        k = e[0]
+        off = {'sub': 2, 'fput': 2, 'fputl': 2, 'subwait': 4, 'fputwait': 4}.get(k)
+        xs = []
+        if off is not None:
+            if e[off] == 'plain':
+                xs = [e[off + 1]]
+            elif e[off] in ('list', 'iter'):
+                xs = list(e[off + 1])
+        elif k == 'py':
+            xs = [e[2]]
+        for x in xs:
+            if x not in out:
+                out.append(x)
+    return out
+
+
+def with_vals(case, rnd, kmax=3):
+    """let up to kmax of the case's argument ids stand for unusual values (None, 0, '', (), ...)"""
+    ids = arg_ids(case['evs'])
+    if not ids:
+        return case
+    tags = list(VALUE_TAGS)
+    vals, zero_used = {}, False
+    for x in rnd.sample(ids, min(len(ids), rnd.randint(1, kmax))):
+        t = 'none' if rnd.random() < 0.5 else rnd.choice(tags)
+        if t in ZERO_FAMILY:
+            if zero_used:
+                continue
+            zero_used = True
+        if t in vals.values() and t not in ZERO_FAMILY:
+            continue            # one id per value: two ids for the same value would be one set element
+        vals[str(x)] = t
+    return dict(case, vals=vals) if vals else case
+
+
+def value_cases(T=8):
+    """unusual argument values at the beginning / in the middle / at the end of every producer kind, most of all of
+    a real iterator (drained by to_async_iter's helper thread): None, and falsy values that are not None"""
+    out = []
+
+    def add(evs, vals):
+        out.append(dict(T=T, evs=evs + settle_tail(T, evs), vals={str(k): v for k, v in vals.items()}))
+    for tag in VALUE_TAGS:
+        for pos in (0, 1, 3):
+            add([['sub', 0, 'iter', [1, 2, 3, 4], None]], {pos + 1: tag})
+            add([['sub', 0, 'list', [1, 2, 3, 4]]], {pos + 1: tag})
+        add([['sub', 0, 'iter', [1, 2, 3, 4], 3]], {2: tag})                    # .. then the iterator fails
+        add([['sub', 0, 'iter', [1, 2, 3, 2, 5], None]], {2: tag})              # the value twice
+        add([['sub', 0, 'iter', [1, 2, 3], None], ['sub', 1, 'iter', [4, 5, 6], None]], {2: tag})
+        add([['sub', 0, 'iter', [1, 2, 3, 4], None], ['wait', 0, True], ['ok']], {2: tag})
+        add([['sub', 0, 'iter', [1, 2, 3, 4], None], ['wait', 0, False], ['adv', T + 1], ['ok']], {3: tag})
+        add([['sub', 0, 'iter', [1, 2, 3], None], ['adv', T + 1], ['fail'], ['sub', 1, 'iter', [4, 2, 5], None]], {2: tag})
+        add([['sub', 0, 'plain', 1], ['sub', 1, 'plain', 2], ['sub', 2, 'plain', 3]], {2: tag})
+        add([['sub', 0, 'plain', 2]], {2: tag})
+        add([['sub', 0, 'async'], ['py', 0, 1], ['py', 0, 2], ['py', 0, 3], ['pe', 0]], {2: tag})
+        add([['sub', 0, 'aw'], ['py', 0, 2], ['sub', 1, 'plain', 3]], {2: tag})
+        add([['fputl', 0, 'iter', [1, 2, 3, 4], None]], {2: tag})
+        add([['fclear'], ['fput', 0, 'iter', [1, 2, 3], None]], {2: tag})
+    # several unusual values in one iterator (at most one of 0 / False / 0.0: equal as set elements)
+    others = [t for t in VALUE_TAGS if t not in ZERO_FAMILY]
+    for z in ZERO_FAMILY:
+        tags = others + [z]
+        add([['sub', 0, 'iter', list(range(1, len(tags) + 3)), None]], {i + 2: t for i, t in enumerate(tags)})
+        add([['sub', 0, 'iter', list(range(1, len(tags) + 3)), None]], {i + 2: t for i, t in enumerate(reversed(tags))})
+    return out
+
+
+def burst_case(n, shape='A', T=8):
+    """n plain submissions in ONE loop pass, then waits"""
+    if shape == 'A':        # wait(cancel=True) flushes the burst; a second wait after the call
+        evs = [['burst', 0, n, 1], ['wait', 0, True], ['ok'], ['wait', 1, False]]
+    elif shape == 'B':      # the timer delivers the burst; wait afterwards, one more submission, wait again
+        evs = [['burst', 0, n, 1], ['adv', T + 1], ['ok'], ['wait', 0, False], ['sub', n, 'plain', n + 1], ['wait', 1, True]]
+    else:                   # the burst arrives while a call is running
+        evs = [['sub', 0, 'plain', 1], ['adv', T + 1], ['burst', 1, n, 2], ['ok'], ['wait', 0, True], ['ok'], ['wait', 1, True]]
+    return dict(T=T, evs=evs + settle_tail(T, evs))
 
 
 def settle_tail(T, evs):
@@ -1009,7 +1148,7 @@ def distribution(cases, obs):
     d = dict(events=0, submit_plain=0, submit_list=0, submit_iter=0, submit_aw=0, submit_async=0,
              pyield=0, pfail=0, pend=0, advance=0, wait_cancel=0, wait_nocancel=0, fnok=0, fnfail=0,
              shutdown=0, foreign=0, submit_then_wait=0, fn_starts=0, fn_ok=0, fn_failed=0, wait_returns=0,
-             daemon_ended=0, hang=0, T8=0, T100=0, T1024=0, T_other=0, settled_tail=0)
+             daemon_ended=0, hang=0, T8=0, T100=0, T1024=0, T_other=0, settled_tail=0, unusual_values=0, none_in_iterator=0)
     keymap = {'py': 'pyield', 'pf': 'pfail', 'pe': 'pend', 'adv': 'advance', 'ok': 'fnok', 'fail': 'fnfail',
               'shutdown': 'shutdown', 'fclear': 'foreign', 'fput': 'foreign', 'okfclear': 'foreign',
               'fputwait': 'foreign', 'fputl': 'foreign'}
@@ -1017,6 +1156,11 @@ def distribution(cases, obs):
         d[{8: 'T8', 100: 'T100', 1024: 'T1024'}.get(c['T'], 'T_other')] += 1
         evs = c['evs']
         d['events'] += len(evs)
+        if c.get('vals'):
+            d['unusual_values'] += 1
+            nones = {int(k) for k, t in c['vals'].items() if t == 'none'}
+            if any(e[0] in ('sub', 'fput', 'fputl') and e[2] == 'iter' and nones & set(e[3][:-1]) for e in evs):
+                d['none_in_iterator'] += 1
         if len(evs) >= 3 and evs[-1] == ['ok'] and evs[-3] == ['ok'] and evs[-2][0] == 'adv':
             d['settled_tail'] += 1
         for e in evs:
@@ -1024,6 +1168,10 @@ def distribution(cases, obs):
                 d['submit_' + e[2]] += 1
             elif e[0] == 'subwait':
                 d['submit_then_wait'] += 1
+            elif e[0] == 'burst':
+                d['submit_plain'] += e[2]
+                d['bursts'] = d.get('bursts', 0) + 1
+                d['largest_burst'] = max(d.get('largest_burst', 0), e[2])
             elif e[0] == 'wait':
                 d['wait_cancel' if e[2] else 'wait_nocancel'] += 1
             else:
@@ -1176,4 +1324,7 @@ def rand_case(rnd, profile):
         evs = evs[:cut] + [['shutdown']]
     elif x < profile.get('p_shutdown', 0.0) + profile.get('p_settle', 0.75):
         evs = evs + settle_tail(T, evs)
-    return dict(T=T, evs=evs)
+    case = dict(T=T, evs=evs)
+    if profile.get('p_vals', 0.0) and rnd.random() < profile['p_vals']:
+        case = with_vals(case, rnd)
+    return case
